@@ -132,6 +132,9 @@ def cases(rng, tier):
         c2['dtype_int'] = bool(c['dtype_int'] and k > 0)
         c2['tag'] = c['tag'] + '/x2^%d' % k
         out.append(c2)
+    for c in out:
+        if rng.random() < 0.2:
+            c['layout'] = rng.randrange(1, 4)
     # malformed stream: wrong lengths, non-sparse A
     n_bad = {'quick': 24, 'thorough': 60, 'search': 0}[tier]
     for k in range(n_bad):
@@ -165,6 +168,9 @@ def impl(case):
     A = BC.mat_from_json(case['A'], case['cplx'])
     if case.get('dtype_int'):
         A = np.rint(A).astype(int)
+    if case.get('layout'):
+        import gen as G
+        A = G.relayout(A, case['layout'])      # Fortran order / non-contiguous view / negative strides: same values
     q0 = np.array(case['q0'], dtype=int)
     q1 = np.array(case['q1'], dtype=int)
     snap = (A.tobytes(), q0.tobytes(), q1.tobytes())
